@@ -132,7 +132,9 @@ func (p *ProofU) validateStructure(pk *gabikeys.PublicKey) error {
 		return errors.New("incomplete ProofU")
 	}
 	for i, response := range p.MUserResponses {
-		if i < 0 || i >= len(pk.R) || response == nil {
+		// Index 0 is the secret key, whose response is SResponse: a second response for base R_0
+		// would allow shifting part of the secret key response out of SecretKeyResponse().
+		if i < 1 || i >= len(pk.R) || response == nil {
 			return errors.New("invalid user response in ProofU")
 		}
 	}
